@@ -25,9 +25,18 @@ let run (input : string) : string =
 let judge (_input : string) (impl : string) (model : string) : verdict =
   if starts_with "panic" impl then Violation ("panic", "writer panicked")
   else if starts_with "ok:" impl then begin
-    let file = bytes_of_hex (String.sub impl 3 (String.length impl - 3)) in
+    (* S / I results carry the harness' cross-table consistency flags after a second colon *)
+    let body = String.sub impl 3 (String.length impl - 3) in
+    let (hexpart, flags) = match String.index_opt body ':' with
+      | Some i -> (String.sub body 0 i, String.sub body (i + 1) (String.length body - i - 1))
+      | None -> (body, "") in
+    let file = bytes_of_hex hexpart in
     if not (valid_sfnt file) then Violation ("invalid-sfnt", "output is not a structurally valid sfnt")
+    else if flags <> "" then Violation ("inconsistent", "tables of the output are not mutually consistent: " ^ flags)
     else if model = "n/a" || impl = model then Agree
+    else Mismatch "valid sfnt, but not the bytes the model predicts"
+  end
+  else if model = "n/a" || impl = model then Agree
     else Mismatch "valid sfnt, but not the bytes the model predicts"
   end
   else if model = "n/a" || impl = model then Agree
